@@ -149,7 +149,7 @@ PushdMove(t, s, popped) ==
 PushdOutcomes(a, noCd) ==
   CASE a.kind = "none" ->
          IF stack = <<>> THEN {Fail}
-         ELSE IF noCd THEN {Ok(Cur)}
+         ELSE IF noCd THEN {Ok(St(pcwd, pwd, oldpwd, Trunc(stack)))}
          ELSE PushdMove(LexNorm(Head(stack)), <<pwd>> \o Tail(stack), <<pwd>> \o Tail(stack))
     [] a.kind \in {"abs", "rel"} ->
          LET chk == IF a.kind = "abs" THEN PhysAbs(a.path) ELSE PhysFrom(pcwd, a.path)
@@ -199,6 +199,8 @@ DirsOutcomes(a) ==
     [] OTHER -> {Fail}
 
 \* ---------------------------------- actions ----------------------------------------------
+Confs == [autoPushd : BOOLEAN, pushdMinus : BOOLEAN, size : Sizes,
+          cdpath : { <<>>, << <<"r","a">> >> }]
 NoSnap == <<"none", St(<<>>, <<>>, <<>>, <<>>)>>
 Take(cmd, a, flag, o) ==
   /\ pcwd' = o.st.pcwd /\ pwd' = o.st.pwd /\ oldpwd' = o.st.oldpwd /\ stack' = o.st.stack
@@ -237,14 +239,25 @@ ExternalChdirFix(d) ==
   /\ act' = [cmd |-> "extchdir", arg |-> Arg("abs", d, 0), flag |-> FALSE] /\ res' = NoRes /\ snap' = NoSnap
   /\ UNCHANGED <<fs, stack, conf>>
 
+\* the prompt-time resynchronisation alone (runs after every command of an interactive shell)
+FixCwd ==
+  /\ IF PhysAbs(pwd) # pcwd THEN pwd' = pcwd /\ oldpwd' = pwd ELSE UNCHANGED <<pwd, oldpwd>>
+  /\ act' = [cmd |-> "fixcwd", arg |-> Arg("none", NoPath, 0), flag |-> FALSE] /\ res' = NoRes /\ snap' = snap
+  /\ UNCHANGED <<fs, pcwd, stack, conf>>
+
+\* a setting is changed in mid-session ($DIRSTACK_SIZE, $AUTO_PUSHD, $PUSHD_MINUS, $CDPATH)
+Configure(c) ==
+  /\ c \in Confs /\ c # conf
+  /\ conf' = c
+  /\ act' = [cmd |-> "setconf", arg |-> Arg("none", NoPath, 0), flag |-> FALSE] /\ res' = NoRes /\ snap' = NoSnap
+  /\ UNCHANGED <<fs, pcwd, pwd, oldpwd, stack>>
+
 \* `with p'...'.cd(): pass` - the path-literal context manager, entered and left
 WithCd(d) ==
   /\ d \in fs /\ d # <<>>
   /\ act' = [cmd |-> "withcd", arg |-> Arg("abs", d, 0), flag |-> FALSE] /\ res' = NoRes /\ snap' = NoSnap
   /\ UNCHANGED <<fs, pcwd, pwd, oldpwd, stack, conf>>
 
-Confs == [autoPushd : BOOLEAN, pushdMinus : BOOLEAN, size : Sizes,
-          cdpath : { <<>>, << <<"r","a">> >> }]
 
 Init == /\ fs = AllDirs /\ pcwd = Home /\ pwd = Home /\ oldpwd = Unset /\ stack = <<>>
         /\ conf \in Confs
@@ -256,6 +269,8 @@ Next == \/ \E a \in CdArgs, f \in BOOLEAN : Cd(a, f)
         \/ \E a \in DirsArgs : Dirs(a)
         \/ \E d \in Removable : Rmdir(d) \/ Mkdir(d)
         \/ \E d \in AllDirs : ExternalChdirFix(d) \/ WithCd(d)
+        \/ FixCwd
+        \/ \E c \in Confs : Configure(c)
 
 Spec == Init /\ [][Next]_vars
 
